@@ -144,6 +144,7 @@ def run_job(job):
             return res
         mids = {k.split("(")[0]: int(v, 16).to_bytes(4, "big") for k, v in c["method_identifiers"].items()}
         init = bytes.fromhex(c["bytecode"][2:])
+        res["initcode"] = init
         ch = Chain(cfg.evm)
         main = ch.deploy(init + bases[0])
         if main is None:
@@ -169,7 +170,7 @@ def run_job(job):
                     r = ch.call(main, mids["viaret_d"] + int(cal, 16).to_bytes(32, "big"))
                 elif kind == "memnt":
                     r = ch.call(main, mids["dec_nt"] + enc_bytes_arg(data))
-                elif kind == "ctor":
+                elif kind in ("ctor", "ctorx"):
                     a = ch.deploy(init + data)
                     if a is None:
                         obs.append((False, b""))
